@@ -31,7 +31,48 @@ func init() {
 		"unit":   replayer(c17EvalUnit),
 		"float":  replayer(c17EvalFloat),
 		"mulf64": replayer(c17EvalMul),
+		"retain": replayer(c17EvalRetain),
 	}})
+}
+
+// retained texts: what Format / String returned must still be that text after further calls (a
+// formatter that hands out a view of a reused buffer is right at first and changes later).  Every
+// sequence of <= 4 calls over 8 (amount, unit) pairs of different text lengths, run sequentially;
+// each text is kept and compared with the exact rendering again at the end.
+type c17Retain struct {
+	Seq []int `json:"call_sequence"` // indices into c17RetainCalls
+}
+
+var c17RetainCalls = []c17Unit{{A: 123456789, Unit: 0}, {A: 1, Unit: 0}, {A: c17Cap, Unit: -8}, {A: -5, Unit: -3}, {A: 100000000, Unit: 3},
+	{A: 2099999999999999, Unit: -6}, {A: 0, Unit: 0}, {A: -c17Cap + 1, Unit: 6}}
+
+func c17EvalRetain(w *mc.W, cas c17Retain) {
+	w.Eval()
+	var kept []string
+	if msg, p := mc.Guard(func() {
+		for _, k := range cas.Seq {
+			cl := c17RetainCalls[k]
+			a, u := bchutil.Amount(cl.A), bchutil.AmountUnit(cl.Unit)
+			if u == bchutil.AmountBCH && k%2 == 0 {
+				kept = append(kept, a.String())
+			} else {
+				kept = append(kept, a.Format(u))
+			}
+		}
+	}); p {
+		w.Ctx().Violate("tounit-or-format-panics/call-sequence", "retain", cas, msg)
+		return
+	}
+	for i, k := range cas.Seq {
+		cl := c17RetainCalls[k]
+		var ebuf [48]byte
+		exact := string(ref.AppendShiftDecimal(ebuf[:0], cl.A, cl.Unit+8))
+		if stem := c17CheckText(kept[i], exact, cl.Unit); stem != "" {
+			w.Ctx().Violate("text-kept-from-an-earlier-call-changed-or-wrong", "retain", cas, fmt.Sprintf("call %d: %s", i, c17TextDetail(kept[i], exact, cl.Unit)))
+			return
+		}
+	}
+	w.Outcome("call sequence: every kept text still exact")
 }
 
 const c17Cap = int64(2_100_000_000_000_000) // 21e6 coins in satoshi
@@ -490,6 +531,30 @@ func runC17(c *mc.Ctx) {
 		}
 	}
 
+	// (0) retained texts, sequentially and first
+	{
+		n := len(c17RetainCalls)
+		var cases []c17Retain
+		for l := 2; l <= mc.Pick(c, 4, 5); l++ {
+			for i := int64(0); i < ipow(n, l); i++ {
+				seq := make([]int, l)
+				x := i
+				for j := l - 1; j >= 0; j-- {
+					seq[j] = int(x % int64(n))
+					x /= int64(n)
+				}
+				cases = append(cases, c17Retain{Seq: seq})
+			}
+		}
+		c.Space("sequences of 2..4(5) Format/String calls over 8 (amount, unit) pairs, every text kept and re-examined at the end", int64(len(cases)))
+		w := c.Worker()
+		for _, cs := range cases {
+			w.State()
+			c17EvalRetain(w, cs)
+		}
+		w.Done()
+		c.Sample("retain", cases[len(cases)/2])
+	}
 	// (A) integer side, every unit exponent -12..12, round trip, String
 	full := c17Amounts(mc.Pick[int64](c, 1<<22, 1<<24), mc.Pick[int64](c, 1<<12, 1<<15), mc.Pick[int64](c, 1<<20, 1<<23))
 	c.Space("amounts (both signs): [0,base] + windows around 2^m, 10^e, whole-coin amounts nearest 2^m + top window below 2.1e15; each with round trip, String and 25 unit exponents -12..12", 2*full.n-1)
